@@ -20,8 +20,8 @@ Definition section_safe (s : PSISection) : bool :=
   end.
 
 Lemma to_data_step (W : Type) s rest_ pf secs ds fp pid (w : W) :
-  PSIData_toData_loop1 W (s :: rest_) pf secs ds (Some fp) pid w =
-  if section_safe s then PSIData_toData_loop1 W rest_ pf secs (ds ++ section_to_data s fp pid) (Some fp) pid w
+  PSIData_toData_loop1 W (s :: rest_) pf secs w (Some fp) pid ds =
+  if section_safe s then PSIData_toData_loop1 W rest_ pf secs w (Some fp) pid (ds ++ section_to_data s fp pid)
   else Panicked.
 Proof.
   cbn [PSIData_toData_loop1]. unfold section_safe, section_to_data.
@@ -42,7 +42,7 @@ Proof.
 Qed.
 
 Lemma to_data_loop (W : Type) l : forall pf secs ds fp pid (w : W),
-  PSIData_toData_loop1 W l pf secs ds (Some fp) pid w =
+  PSIData_toData_loop1 W l pf secs w (Some fp) pid ds =
   if forallb section_safe l then Done (ds ++ flat_map (fun s => section_to_data s fp pid) l, w) else Panicked.
 Proof.
   induction l as [|s r IH]; intros.
